@@ -1,5 +1,6 @@
 import Infretis.Model.Proto
 import Infretis.Model.Repex
+import Infretis.Model.EngSetup
 /-
 Stateful line protocol for the replica-exchange state machine (used by the drivers of
 C03 C04 C05 C06 C07 C17).  The driver keeps one `St` and the jobs in flight.
@@ -11,6 +12,7 @@ structure DState where
   s : St
   jobs : List Job := []
   ok : Bool := true
+  eng : EngTbl := []     -- `engine.rgen` of the engine objects of the (single) worker process, for C07
 
 def emptySt : St :=
   { n := 0, W := [], trajs := [], locks := [], locked := [], locked0 := [], toinitiate := 0, workers := 0,
@@ -145,6 +147,30 @@ def handle (d : DState) (toks : List String) : DState × String :=
           ({ d with s := s1, jobs := d.jobs.filter (·.pin != pin) }, s!"new={showNats pns} sortiters={iters}")
       | _, _ => (d, "bad-op")
     | _, _ => (d, "bad-op")
+  -- engsetup <entropy>/<key,key,..>/<k:i,k:i,..|-> ...   one token per picked ensemble, in order:
+  -- the set-up loop of select_shoot on the process's engine objects; answers the whole table
+  | "engsetup" :: rest =>
+    let parseTok (tok : String) : Option Picked :=
+      match tok.splitOn "/" with
+      | [en, key, engs] =>
+        match parseNat? en, (key.splitOn ",").mapM parseNat? with
+        | some en, some key =>
+          let objs : Option (List (Nat × Nat)) :=
+            if engs = "-" then some [] else
+            (engs.splitOn ",").mapM (fun ki => match ki.splitOn ":" with
+              | [k, i] => (match parseNat? k, parseNat? i with
+                           | some k, some i => some (k, i) | _, _ => none)
+              | _ => none)
+          objs.map (fun o => { ens := 0, pn := 0, rgen := { entropy := en, key := key.dropLast },
+                               rgenEng := { entropy := en, key := key }, engIdx := o })
+        | _, _ => none
+      | _ => none
+    match rest.mapM parseTok with
+    | none => (d, "bad-op")
+    | some ps =>
+      let tbl := assignEngineStreams d.eng ps
+      ({ d with eng := tbl },
+        ";".intercalate (tbl.map (fun (e, x) => s!"{e.1}:{e.2}={showStream x}")))
   | ["prob"] => (d, showMat (prob d.s))
   | ["dump"] => (d, dump d.s)
   | ["persist"] =>
